@@ -440,6 +440,28 @@ def allclose(a, b, rtol=1e-5, atol=1e-8):
     return True
 
 
+def isclose(a, b, rtol=1e-5, atol=1e-8, equal_nan=False):
+    def f(x, y):
+        x, y = _fl(x), _fl(y)
+        if x.is_special or y.is_special:
+            if _isnan(x) or _isnan(y):
+                return bool(equal_nan and _isnan(x) and _isnan(y))
+            return x.is_special and y.is_special and x.v == y.v
+        return abs(x - y) <= SReal.of(Fraction(repr(float(atol)))) + SReal.of(Fraction(repr(float(rtol)))) * abs(y)
+    return _elementwise2(asarr(a), asarr(b), f, out_dtype="bool")
+
+
+def copyto(dst, src, casting="same_kind", where=True):
+    if not isinstance(dst, SArr):
+        raise TypeError("copyto() argument 1 must be an array")
+    if not dst.flags.writeable:
+        raise ValueError("assignment destination is read-only")
+    r = globals()["where"](where if isinstance(where, SArr) else full(dst.shape, where, dtype="bool"), src, dst)
+    if r.shape != dst.shape:
+        raise ValueError("could not broadcast input array from shape %s into shape %s" % (r.shape, dst.shape))
+    dst.data[:] = [coerce_elem(d, dst.dtype) for d in r.data]
+
+
 def argsort(a, **_k):
     a = asarr(a)
     if a.ndim != 1:
@@ -675,7 +697,7 @@ def build():
                  "tril", "triu", "diff", "cumsum", "transpose", "fill_diagonal", "sqrt", "square", "absolute",
                  "negative", "power", "sign", "where", "clip", "minimum", "maximum", "logical_or", "logical_and",
                  "logical_not", "isfinite", "isinf", "isnan", "isscalar", "isin", "count_nonzero", "array_equal",
-                 "allclose", "argsort", "nonzero", "flatnonzero", "seterr", "geterr", "nanmin", "nanmax", "prod", "dot", "einsum", "errstate"):
+                 "allclose", "isclose", "copyto", "argsort", "nonzero", "flatnonzero", "seterr", "geterr", "nanmin", "nanmax", "prod", "dot", "einsum", "errstate"):
         setattr(np, name, g[name])
     np.abs = absolute
     np.max = amax_
